@@ -45,6 +45,9 @@ def scenarios(ctx: Ctx, res: Result):
     for sc in gc.double_outage_family():
         res.count('double_outage_family')
         yield sc
+    for sc in gc.change_during_resync_family():
+        res.count('change_during_resync_family')
+        yield sc
     for sc in gc.resync_retry_family():
         res.count('resync_retry_family')
         yield sc
